@@ -9,7 +9,7 @@ props = [json.loads(l) for l in open(os.path.join(VERIF, 'properties.jsonl'))]
 checks = []
 for pid in sorted(REG.CHECKS):
     c = REG.CHECKS[pid]
-    if c.get('unclaimed'):
+    if pid not in REG.CLAIMED:
         continue
     checks.append(dict(
         property_id=pid,
